@@ -69,6 +69,17 @@ func solveAll(results []*vc.FuncResult, s *vc.Solver, workers int) []*oblResult 
 			for j := range ch {
 				q := j.or.Obl.Queries[j.qi]
 				var a vc.Answer
+				if len(q.PC) > 40 {
+					// large context: first try to prove the goal from the hypotheses in its cone of influence
+					a = s.SolveQuick(j.res.SlicedQuery(q, 2), 6)
+					if a.Result != "unsat" {
+						a = s.SolveQuick(j.res.SlicedQuery(q, 4), 10)
+					}
+					if a.Result == "unsat" {
+						j.or.Answers[j.qi] = a
+						continue
+					}
+				}
 				if q.Alt != "" {
 					q2 := q
 					q2.Goal = q.Alt
